@@ -279,6 +279,10 @@ def run(prog: Program, rep: Report, tier: str):
                "KDMixWrapper no longer declares ['x', 'class'] as fused: x and class requested together are drawn twice "
                "(without a seed: two different mixes)", clause="C11.5", nontrivial=False)
     projections(prog, rep, C, "x", "class", clause="C11.5")
+    # the jointly drawn pair must also win when the label is requested before the data ('class x'): ModeWrapper writes loader
+    # results back in list order, last writer wins
+    from .c01 import fuse_lists_append_only
+    fuse_lists_append_only(prog, rep, clause="C11.5")
     # one_hot helper
     oh = prog.func("kappadata/utils/one_hot.py", "to_one_hot_vector")
     oa = fa_of(prog, oh)
